@@ -28,6 +28,8 @@ type Case struct {
 	Events     bool     `json:"events,omitempty"`
 	// ReadVars: variables of the program's scope read back (as strings) after it ran
 	ReadVars  []string `json:"read_vars,omitempty"`
+	// ReadFiles: files (relative to the worker's private cwd) read back and removed after the program ran
+	ReadFiles []string `json:"read_files,omitempty"`
 	FIDCheck  bool     `json:"fid_check,omitempty"`
 	TimeoutMs int      `json:"timeout_ms,omitempty"`
 	// IdleMs: wait after the program so that deferred goroutines fire
@@ -59,6 +61,7 @@ type Run struct {
 	FIDsLeft []string          `json:"fids_left,omitempty"`
 	Vars     map[string]string `json:"vars,omitempty"`
 	VarErrs  map[string]string `json:"var_errs,omitempty"`
+	Files    map[string][]byte `json:"files,omitempty"`
 }
 
 // Result is what a worker returns for a case
